@@ -531,9 +531,19 @@ theorem wp_stepClose (b : Bool) (s : PS) (hs : s.pos ≤ E.pat.length)
 
 theorem wp_stepIsPythonRef (o : Opts) (s : PS) (Q : Bool → PS → Prop) (R : PS → Prop)
     (hq : ∀ b, (b = true → s.pos + 3 ≤ E.pat.length) → Q b s) : wp (stepIsPythonRef E o) Q R s := by
-  unfold stepIsPythonRef
-  wp_run
-  all_goals (apply hq; intro hb; first | omega | simp at hb)
+  by_cases hig : s.ignoreNextParen = true
+  · have : wp (stepIsPythonRef E o) Q R s = Q false s := by
+      unfold wp stepIsPythonRef; simp [hig]
+    rw [this]
+    exact hq false (by intro h; cases h)
+  · have hcore : wp (stepIsPythonRefCore E o) Q R s := by
+      unfold stepIsPythonRefCore
+      wp_run
+      all_goals (apply hq; intro hb; first | omega | simp at hb)
+    have : wp (stepIsPythonRef E o) Q R s = wp (stepIsPythonRefCore E o) Q R s := by
+      unfold wp stepIsPythonRef; simp [hig]
+    rw [this]
+    exact hcore
 
 theorem isQuantCh_iff (c : Nat) : isQuantCh c = true ↔ c = 42 ∨ c = 43 ∨ c = 63 ∨ c = 123 := by
   simp [isQuantCh]
